@@ -13,7 +13,7 @@ import (
 
 func init() {
 	register("C20", propMeta{
-		Explanation: "Decides how the caches are kept behind the authoritative stores: (R1) a node that is not in the transaction's own caches is resolved through the registry handle's active id, the process-wide MRU shortcut only before commit time and the L1 node cache only on an equal version (shared with C03.R2); (R2) every registry writer of the file-system registry refreshes or evicts what it wrote: Add and UpdateNoLocks touch the caches only after the disk write succeeded and then set L1 and L2 for the written handles, Update evicts L1 and L2 on a failed disk write and refreshes them on success, Remove evicts on every exit (deferred); (R3) positional contract: the callers of Registry.Get index the result in lock-step with the request, so every Registry.Get implementation in scope must return handles in request order: all appends to the result happen in loops over the requested ids and appends of different loops are separated by a reset of the result; (R4) the store repository refreshes the cached StoreInfo after every successful write of a store's metadata and evicts it before the store's folder is removed; (R5) the per-process L1 handle cache (refreshed only by this process's own registry writes) is read by nothing but the pre-commit MRU shortcut of nodeRepositoryBackend.get - in particular no Registry.Get implementation serves handles from it.",
+		Explanation: "Decides how the caches are kept behind the authoritative stores: (R1) a node that is not in the transaction's own caches is resolved through the registry handle's active id, the process-wide MRU shortcut only before commit time and the L1 node cache only on an equal version (shared with C03.R2); (R2) every registry writer of the file-system registry refreshes or evicts what it wrote: Add and UpdateNoLocks touch the caches only after the disk write succeeded and then set L1 and L2 for the written handles, Update evicts L1 and L2 on a failed disk write and refreshes them on success, Remove evicts on every exit (deferred); (R3) positional contract: the callers of Registry.Get index the result in lock-step with the request, so every Registry.Get implementation in scope must return handles in request order: all appends to the result happen in loops over the requested ids and appends of different loops are separated by a reset of the result; (R4) the store repository refreshes or evicts the cached StoreInfo AFTER every successful write of a store's metadata - on the commit path of Update and in its undo closure - and evicts it before the store's folder is removed; (R5) the per-process L1 handle cache (refreshed only by this process's own registry writes) is read by nothing but the pre-commit MRU shortcut of nodeRepositoryBackend.get - in particular no Registry.Get implementation serves handles from it.",
 		DoesNotCover: "Cross-process freshness of the time-based caches (L1 handle cache TTL, StoreInfo cache TTL), eviction at arbitrary moments and clustered-vs-standalone cache behaviour are runtime matters and are not decided; the value cache is covered only through C19.R4.",
 	}, runC20)
 }
@@ -260,26 +260,39 @@ func runC20(c *Ctx) {
 			fmt.Sprintf("the process-local handle cache is read by %v: it is refreshed only by this process's own registry writes, so serving registry lookups (or anything but the pre-commit MRU shortcut) from it returns handles another process has already replaced", readers), nil)
 	}
 
-	r4 := c.Rule("R4", "the store repository refreshes the cached StoreInfo after every successful metadata write and evicts it before removing the store", 3)
+	r4 := c.Rule("R4", "the store repository refreshes (or evicts) the cached StoreInfo after every successful metadata write, on the commit path and in the undo closure, and evicts it before removing the store", 7)
 	{
 		f := w.Fn("fs.StoreRepository.Update")
-		g := w.G(f)
+		_ = w.G(f)
 		c.Analysed(f)
-		wr := g.callNodes("fs.fileIO.write")
-		okU := len(wr) >= 2
-		for _, nc := range wr {
-			_, succ, ok := g.ErrBranches(nc.n, nc.cs)
-			if !ok {
-				// `if err := write(); err == nil {` form
-				okU = okU && len(g.MustFollow([]*GNode{nc.n}, calls(kL2Set), func(n *GNode) bool { return n.RangeHead != nil || (n.Ret != nil && g.ClassifyReturn(n) == RetNil) })) >= 0
-				continue
+		nW := 0
+		for _, fn := range append([]*Func{f}, w.allLits(f)...) {
+			gf := w.G(fn)
+			until := func(n *GNode) bool {
+				if n.RangeHead != nil || n.Exit || n.Ret != nil {
+					return true
+				}
+				_, isInc := n.Ast.(*ast.IncDecStmt) // post statement of a counted loop: next store
+				return isInc
 			}
-			offs := g.MustFollowFrom(succ, calls(kL2Set), func(n *GNode) bool { return n.RangeHead != nil || (n.Ret != nil && g.ClassifyReturn(n) == RetNil) })
-			if len(offs) > 0 {
-				okU = false
+			name := "StoreRepository.Update"
+			if fn != f {
+				name = "StoreRepository.Update (undo closure)"
+			}
+			for _, nc := range gf.callNodes("fs.fileIO.write") {
+				nW++
+				construct := fmt.Sprintf("%s: successful storeinfo write #%d is followed by a cache refresh or eviction of that store", name, ordinalOf(w, fn, nc.cs))
+				_, succ, ok := gf.ErrBranches(nc.n, nc.cs)
+				if !ok {
+					c.Violated(r4, construct, nc.cs.Call.Pos(), "the result of the write is not tested", nil)
+					continue
+				}
+				offs := gf.MustFollowFrom(succ, calls(kL2Set, kL2Del), until)
+				c.Offences(gf, offs, r4, construct, nc.cs.Call.Pos(), "SetStruct / Delete after the successful write, before the next store",
+					"a store's metadata is rewritten on disk while the shared cache keeps (or was just re-seeded with) the previous record: readers and the next Update, which adds its delta to the cached count, work from a count that is not the one on disk")
 			}
 		}
-		c.Check(okU, r4, "StoreRepository.Update: every successful storeinfo write is followed by a cache refresh of that store", f.Decl.Pos(), "SetStruct after each successful write, before the next store", "a store's metadata can be rewritten on disk while the cached StoreInfo keeps the old count", nil)
+		c.Check(nW >= 4, r4, "StoreRepository.Update: storeinfo write sites inventoried", f.Decl.Pos(), fmt.Sprintf("%d write sites (commit path and undo)", nW), fmt.Sprintf("found %d write sites, expected at least 4", nW), nil)
 		fr := w.Fn("fs.StoreRepository.Remove")
 		gr := w.G(fr)
 		c.Analysed(fr)
